@@ -430,7 +430,7 @@ class Oracle:
                          {'site': site, 'element': k, 'inputs_hex': hexl(inputs), 'inputs': np.asarray(inputs, dtype=float).flatten().tolist(),
                           'value': np.asarray(e, dtype=float).tolist() if prob != 'not-numeric' else repr(e), 'residual': r})
 
-    GAP = 'oracle:tiny-rotation-vector:unitvec-threshold-gap:raises'
+    GAP = 'oracle:tiny-rotation-vector:raises-below-100eps'    # repaired by d900630: kept as a classifier, no known entry matches it
 
     def call(self, site, kind, fn, inputs, multi=False, tiny=None):
         """tiny: magnitude of the rotation vector handed to an exponential-coordinate constructor (Exp, EulerVec, trexp):
@@ -543,6 +543,13 @@ class Oracle:
             self.call('SE3.Delta', 'T3', lambda: SE3.Delta(dd).data, dd, multi=True)
             t3 = self.trans(3)
             self.call('transl', 'T3', lambda: base.transl(t3), t3)
+            ki = [int(v) for v in rng.integers(-9, 10, size=3)]
+            self.call('int-args', 'T3', lambda: [base.transl(ki[0], ki[1], ki[2]), base.trotx(ki[0], t=ki), base.rpy2tr(ki[0], ki[1], ki[2]), base.eul2tr(ki),
+                                                  base.angvec2tr(ki[0], [1, 0, 0] if ki == [0, 0, 0] or not any(ki) else ki), base.trnorm(base.transl(ki[0], ki[1], ki[2]))]
+                      + (SE3(ki[0], ki[1], ki[2]) * SE3.Rx(ki[0]) * SE3.Tx(ki[1])).data + (SE3(ki) / SE3.RPY(ki)).data + (SE3(ki[0], ki[1], ki[2]) ** -2).data
+                      + SE3.Rx(ki[0], t=ki).inv().data, ki, multi=True)
+            self.call('int-args:2d', 'T2', lambda: [base.transl2(ki[0], ki[1]), base.trot2(ki[0], t=ki[:2])] + (SE2(ki[0], ki[1]) * SE2(ki[0], ki[1], ki[2])).data
+                      + SE2(ki[0], ki[1], ki[2]).inv().data + (SE2(ki[0], ki[1]) ** -3).data, ki, multi=True)
             self.call('transl2', 'T2', lambda: base.transl2(t3[:2]), t3[:2])
             self.call('SE3.Txyz', 'T3', lambda: SE3.Tx(t3).data + SE3.Ty(t3).data + SE3.Tz(t3).data + SE3(t3[0], t3[1], t3[2]).data + SE3(t3).data,
                       t3, multi=True)
@@ -571,6 +578,12 @@ class Oracle:
             self.call('UnitQuaternion.OA', 'Q', lambda: UnitQuaternion.OA(o, a_).data, np.r_[o, a_], multi=True)
             # normalisation: perturbed members
             Rn = rnd_so3(rng) + rng.normal(size=(3, 3)) * float(rng.choice([0, 1e-12, 1e-8, 1e-4, 1e-2]))
+            if rng.random() < 0.4:
+                # volume-preserving loss of orthogonality (what a chain of products produces): R (I + e (E_ij + E_ji)), det = 1 - e^2
+                i_, j_ = rng.choice(3, size=2, replace=False)
+                Sh = np.eye(3)
+                Sh[i_, j_] = Sh[j_, i_] = log_uniform(rng, 1e-12, 1e-2)
+                Rn = rnd_so3(rng) @ Sh
             self.call('trnorm:3x3', 'R3', lambda: base.trnorm(Rn), Rn)
             Tn = np.eye(4)
             Tn[:3, :3], Tn[:3, 3] = Rn, self.trans(3)
@@ -578,6 +591,9 @@ class Oracle:
             self.call('SE3.norm', 'T3', lambda: SE3(Tn, check=False).norm().data, Tn, multi=True)
             self.call('SO3.norm', 'R3', lambda: SO3(Rn, check=False).norm().data, Rn, multi=True)
             R2n = rnd_so2(rng) + rng.normal(size=(2, 2)) * float(rng.choice([0, 1e-12, 1e-8, 1e-4, 1e-2]))
+            if rng.random() < 0.4:
+                e_ = log_uniform(rng, 1e-12, 1e-2)
+                R2n = rnd_so2(rng) @ np.array([[1.0, e_], [e_, 1.0]])
             T2n = np.eye(3)
             T2n[:2, :2], T2n[:2, 2] = R2n, self.trans(2)
             self.call('trnorm2:2x2', 'R2', lambda: base.trnorm2(R2n), R2n)
@@ -710,6 +726,19 @@ class Oracle:
             self.icall('SE3.interp:vector-s:start', 'T3', 'SE3', lambda: interp_checked(X1, sv, X0).data, ops2, np.r_[inp, sv], multi=True, pair=(T0[:3, :3], T1[:3, :3]))
             self.icall('SE3.interp:vector-s', 'T3', 'SE3', lambda: interp_checked(Xn, sv).data, [(Tn, 'T3')], np.r_[Tn.flatten(), sv], multi=True)
             self.icall('SE3.interp:multi', 'T3', 'SE3', lambda: interp_checked(SE3([T1, Tn], check=False), s).data, ops2 + [(Tn, 'T3')], inp, multi=True)
+            # ---- integer-typed end / start poses (transl(1,2,3), SE3(1,2,3), SE3.Tx(2) hold integer arrays)
+            ti = [int(v) for v in rng.integers(-9, 10, size=3)]
+            Ti = base.transl(ti[0], ti[1], ti[2])
+            Xi = SE3(ti[0], ti[1], ti[2])
+            opsi = [(T0, 'T3'), (np.asarray(Ti, dtype=float), 'T3')]
+            inpi = np.r_[T0.flatten(), ti, s]
+            self.icall('trinterp:se3:start:int-end', 'T3', 'base', lambda: base.trinterp(T0, Ti, s), opsi, inpi)
+            self.icall('trinterp:se3:int-start', 'T3', 'base', lambda: base.trinterp(Ti, T0, s), opsi, inpi)
+            self.icall('SE3.interp:start:int-end', 'T3', 'SE3', lambda: interp_checked(Xi, s, X0).data, opsi, inpi, multi=True)
+            self.icall('SE3.interp:int-start', 'T3', 'SE3', lambda: interp_checked(X0, s, Xi).data, opsi, inpi, multi=True)
+            self.icall('SE3.interp:int', 'T3', 'SE3', lambda: interp_checked(SE3.Tx(ti[0]) * SE3(Tn, check=False), s).data, [(Tn, 'T3')], np.r_[Tn.flatten(), ti, s], multi=True)
+            e2i = [int(v) for v in rng.integers(-9, 10, size=2)]
+            Yi = SE2(e2i[0], e2i[1])
             # ---- 3-D rotations (SO(3) case of trinterp, SO3.interp)
             R0, R1, Rn = T0[:3, :3], T1[:3, :3], Tn[:3, :3]
             ops3 = [(R0, 'R3'), (R1, 'R3')]
@@ -737,6 +766,8 @@ class Oracle:
             self.icall('SE2.interp:start', 'T2', 'SE2', lambda: interp_checked(Y1, s, Y0).data, ops2, inp, multi=True)
             self.icall('SE2.interp', 'T2', 'SE2', lambda: interp_checked(Yn, s).data, [(En, 'T2')], np.r_[En.flatten(), s], multi=True)
             self.icall('SE2.interp:vector-s', 'T2', 'SE2', lambda: interp_checked(Yn, sv).data, [(En, 'T2')], np.r_[En.flatten(), sv], multi=True)
+            self.icall('SE2.interp:start:int-end', 'T2', 'SE2', lambda: interp_checked(Yi, s, Y0).data, ops2, np.r_[E0.flatten(), e2i, s], multi=True)
+            self.icall('SE2.interp:int-start', 'T2', 'SE2', lambda: interp_checked(Y0, s, Yi).data, ops2, np.r_[E0.flatten(), e2i, s], multi=True)
             Z0, Zn = SO2(E0[:2, :2], check=False), SO2(En[:2, :2], check=False)
             self.icall('SO2.interp', 'R2', 'SO2', lambda: interp_checked(Zn, s).data, [(En[:2, :2], 'R2')], np.r_[En[:2, :2].flatten(), s], multi=True)
             self.icall('SO2.interp:start', 'R2', 'SO2', lambda: interp_checked(SO2(E1[:2, :2], check=False), s, Z0).data,
